@@ -89,6 +89,9 @@ MUTANTS = [
     ("one party too many", "AegeanTools/BANE.py",
      "barrier = ctx.Barrier(parties=len(ymaxs))",
      "barrier = ctx.Barrier(parties=len(ymaxs) + 1)", "C07-R1"),
+    ("pool sized from the requested stripes (seed C07d)", "AegeanTools/BANE.py",
+     "pool = ctx.Pool(processes=max(cores, len(ymaxs)), maxtasksperchild=1,",
+     "pool = ctx.Pool(processes=max(cores, nslice), maxtasksperchild=1,", "C07-R1"),
 ]
 TWINS = [
     ("processes exactly parties", "AegeanTools/BANE.py",
@@ -356,14 +359,22 @@ def r1(ctx, parent, bar, pool, tasks_expr):
             vn = names_in(s.value)
             if (tn & pn and vn & qn) or (tn & qn and vn & pn):
                 relating.append(s)
-    clamps = [s for s in relating if any(
-        isinstance(c, ast.Call) and norm(c.func) in ("min", "max")
+    def on_proc_side(s_):
+        """does the statement define something the PROCESSES expression is
+        made of, from the parties' side?  (only such a statement could make
+        processes >= parties hold in a way this rule does not recognise)"""
+        tn_ = names_in(s_.targets[0] if isinstance(s_, ast.Assign)
+                       else s_.target)
+        return bool(tn_ & qn) and bool(names_in(s_.value) & pn)
+    clamps = [s for s in relating if on_proc_side(s) and any(
+        isinstance(c, ast.Call) and norm(c.func) in ("max",)
         for c in ast.walk(s.value))]
     uncond_alias = []
     cfg = CFG(parent.node)
     for s in relating:
         nodes = cfg.nodes_for_stmt(s)
-        if nodes and cfg.path_avoiding(ENTRY, EXIT, nodes) is None:
+        if on_proc_side(s) and nodes and \
+                cfg.path_avoiding(ENTRY, EXIT, nodes) is None:
             uncond_alias.append(s)
     if clamps or uncond_alias:
         raise AnalysisError(
